@@ -149,8 +149,11 @@ impl DataType {
             DataType::VectorInt8 { dim: None } => ArrowDataType::LargeList(Arc::new(
                 arrow::datatypes::Field::new("item", ArrowDataType::Int8, false),
             )),
-            // Timestamps stored as Int64 (milliseconds since Unix epoch)
-            DataType::Timestamp => ArrowDataType::Int64,
+            // Timestamps (milliseconds since Unix epoch) keep their own column type so that
+            // they are read back as timestamps, not as plain integers
+            DataType::Timestamp => {
+                ArrowDataType::Timestamp(arrow::datatypes::TimeUnit::Millisecond, None)
+            }
         }
     }
 
@@ -163,6 +166,9 @@ impl DataType {
             ArrowDataType::Utf8 | ArrowDataType::LargeUtf8 => Some(DataType::String),
             ArrowDataType::Boolean => Some(DataType::Bool),
             ArrowDataType::Null => Some(DataType::Null),
+            ArrowDataType::Timestamp(arrow::datatypes::TimeUnit::Millisecond, None) => {
+                Some(DataType::Timestamp)
+            }
             // FixedSizeList preserves dimension information
             ArrowDataType::FixedSizeList(field, size)
                 if matches!(field.data_type(), ArrowDataType::Float32) =>
